@@ -7,7 +7,7 @@
 (* and every slice compared as a set of label->value maps, each printed    *)
 (* exactly once; label order inside a line per the sorting flag.           *)
 (***************************************************************************)
-EXTENDS AdfSem, AdfSyntax, Cli, CliFsOps, Integers, Json, IOUtils
+EXTENDS AdfCompose, AdfSyntax, Cli, CliFsOps, Integers, Json, IOUtils
 
 Rec == ndJsonDeserialize(IOEnv.TRACE)
 VARIABLE l
@@ -51,6 +51,39 @@ CheckGood(r) ==
             \* every statement labelled by its own name, in the order the sorting flag prescribes
             /\ \A j \in DOMAIN r.lines :
                  /\ Report(Len(r.lines[j]) = n /\ RangeOf(LineLabels(r.lines[j])) = RangeOf(r.labels), r.id, "C15", "labels")
+                 /\ (r.sort = "none") => Report(LineLabels(r.lines[j]) = r.labels, r.id, "C15", "declaration-order")
+                 /\ (r.sort = "lx") => Report(SortedLex(LineLabels(r.lines[j])), r.id, "C10", "lx-order-not-bytewise")
+                 /\ Report(LineLabels(r.lines[j]) = LineLabels(r.lines[1]), r.id, "C15", "label-order-varies")
+  /\ PrintT(<<"INFO", l, r.id, r.lib, Len(secs), Len(r.lines)>>)
+
+\* composed frameworks (9-14 statements): same launch record plus the claimed decomposition, judged with AdfCompose
+LineVec(line, labels) == [i \in DOMAIN labels |-> LET e == CHOOSE x \in RangeOf(line) : x[2] = labels[i] IN IF e[1] = "u" THEN "U" ELSE e[1]]
+CheckGoodBig(r) ==
+  IF ~ValidDecomp(r.asts, r.n, r.blocks, r.observers) THEN PrintT(<<"BADRECORD", l, r.id, "not a decomposition">>)
+  ELSE
+  LET n == r.n
+      secs == Sections(r.lib, RangeOf(r.flags))
+      needCo == \E i \in DOMAIN secs : secs[i][1] = "C"
+      bs == IF needCo THEN BlockSem(r.asts, r.blocks) ELSE BlockSemLight(r.asts, r.blocks)
+      G  == GroundedC(r.asts, n, r.blocks, r.observers, bs)
+      Sel(k) == CASE k = "C" -> "co" [] k = "W" -> "tw" [] OTHER -> "st"
+      sizes == [i \in DOMAIN secs |-> IF secs[i][1] = "G" THEN 1 ELSE CountC(bs, Sel(secs[i][1]), 1)]
+      start(i) == SumLen(sizes, 1) - SumLen(sizes, i)
+      wellLabelled == \A j \in DOMAIN r.lines : Len(r.lines[j]) = n /\ RangeOf(LineLabels(r.lines[j])) = RangeOf(r.labels)
+  IN
+  /\ Report(r.exit = 0, r.id, "C15", "exit-nonzero")
+  /\ r.exit = 0 =>
+       /\ Report(Len(r.lines) = SumLen(sizes, 1), r.id, "C15", "number-of-lines")
+       /\ Report(wellLabelled, r.id, "C15", "labels")
+       /\ (Len(r.lines) = SumLen(sizes, 1) /\ wellLabelled) =>
+            /\ \A i \in DOMAIN secs :
+                 LET slice == SubSeq(r.lines, start(i) + 1, start(i) + sizes[i])
+                     vecs == [j \in DOMAIN slice |-> LineVec(slice[j], r.labels)]
+                 IN Report(IF secs[i][1] = "G" THEN vecs = <<G>>
+                           ELSE ExactlyOnceC(vecs, n, r.asts, r.blocks, r.observers, bs, Sel(secs[i][1]))
+                                /\ (secs[i][1] = "C" => vecs[1] = G),
+                           r.id, "C15", <<"section", secs[i][2], r.lib>>)
+            /\ \A j \in DOMAIN r.lines :
                  /\ (r.sort = "none") => Report(LineLabels(r.lines[j]) = r.labels, r.id, "C15", "declaration-order")
                  /\ (r.sort = "lx") => Report(SortedLex(LineLabels(r.lines[j])), r.id, "C10", "lx-order-not-bytewise")
                  /\ Report(LineLabels(r.lines[j]) = LineLabels(r.lines[1]), r.id, "C15", "label-order-varies")
@@ -114,6 +147,7 @@ CheckFs(r) == /\ Report({"a.adf", "b.adf", "note.txt"} \subseteq DOMAIN r.init, 
 Init2 == l = 1
 Next2 == /\ l <= Len(Rec)
          /\ (CASE Rec[l].kind = "cli" -> CheckGood(Rec[l])
+               [] Rec[l].kind = "cli_big" -> CheckGoodBig(Rec[l])
                [] Rec[l].kind = "cli_bad" -> CheckBad(Rec[l])
                [] Rec[l].kind = "cli_counter" -> CheckCounter(Rec[l])
                [] Rec[l].kind = "cli_persist" -> CheckPersist(Rec[l])
